@@ -6,5 +6,6 @@ open CJ.Drv
 def main : IO Unit := runDriver fun
   | "load" :: args => Config.handleLoad args
   | "reload" :: args => Config.handleReload args
+  | "reload2" :: args => Config.handleReload2 args
   | "stats" :: args => Config.handleStats args
   | _ => none
